@@ -1282,8 +1282,9 @@ def run(tier, seed, reg=None):
             host = name + r.choice(PORTS)
             ls = []
             for _ in range(r.choice((1, 1, 2, 3, 4))):
-                if r.random() < 0.5 and "." in name:
+                if r.random() < 0.5 and "." in name and "[" not in name and "]" not in name:
                     # an entry related to the host: a suffix of its labels, cut at a label boundary or inside a label
+                    # (not for address literals: a piece of a bracketed literal is not a name of the label grammar)
                     cut = r.randrange(len(name))
                     e = name[cut:]
                     if r.random() < 0.5:
